@@ -5,7 +5,7 @@ import (
 )
 
 // preflight: the Lean ports of the hashers must agree with the Go ones
-func genPRE(out *Out, r *Rng, tier string, n int) {
+func genPRE(out *Out, r *Rng, tier string, n int, shard int) {
 	for _, hs := range append(allHashers(), hSmall(3), hSmall(5), hSmall(7)) {
 		for i := 0; i < n/8+4; i++ {
 			k := 1 + r.Intn(6)
